@@ -374,6 +374,10 @@ func c10fRun(env *c10Env, m c10fSink, dead *ebpf.Map, h *c10Hist, stats map[stri
 			continue
 		}
 		e0 := stats["store_errors"] + stats["query_errors"] + stats["upready_errors"]
+		var pubBefore any
+		if f.open && (op.Kind == "query" || op.Kind == "store") {
+			pubBefore, _ = w.ctrl.dnsCache.Load(w.key(op))
+		}
 		if err = w.apply(i, op); err != nil {
 			return &c10fFail{Sig: "crash/" + op.Kind, What: err.Error(), OpIdx: i, Detail: map[string]any{}}, f, nil
 		}
@@ -384,6 +388,15 @@ func c10fRun(env *c10Env, m c10fSink, dead *ebpf.Map, h *c10Hist, stats map[stri
 			if stats["store_errors"]+stats["query_errors"]+stats["upready_errors"] > e0 {
 				m.Count("cache_insertions_that_returned_the_write_error/"+f.mode, 1)
 				f.tok(f.mode + ":failed-" + op.Kind)
+				// Did the insertion whose route write failed publish its entry all the same? The statement
+				// allows both; which observations a window can produce depends on it (see the Require set).
+				if op.Kind == "query" || op.Kind == "store" {
+					if pubAfter, ok := w.ctrl.dnsCache.Load(w.key(op)); ok && pubAfter != pubBefore {
+						m.Count("insertion_with_failed_route_write/entry_published_all_the_same/"+f.mode, 1)
+					} else {
+						m.Count("insertion_with_failed_route_write/entry_not_published/"+f.mode, 1)
+					}
+				}
 			}
 			continue // not judged: dae had no retry opportunity yet
 		}
@@ -739,12 +752,29 @@ func TestVerifC10Fault(t *testing.T) {
 		m.Count(k, v)
 	}
 	m.Require("fault_windows/"+c10fAllFail, "fault_windows/"+c10fTableFull,
-		"windows_after_which_table_differed_from_cache/"+c10fAllFail, "windows_after_which_table_differed_from_cache/"+c10fTableFull,
-		"windows_healed_by_dae_retry_paths/"+c10fAllFail, "windows_healed_by_dae_retry_paths/"+c10fTableFull,
+		"windows_after_which_table_differed_from_cache/"+c10fAllFail,
+		"windows_healed_by_dae_retry_paths/"+c10fAllFail,
 		"cache_insertions_that_returned_the_write_error/"+c10fAllFail, "cache_insertions_that_returned_the_write_error/"+c10fTableFull,
-		"at_recovery/missing_addresses", "at_recovery/stale_addresses", "at_recovery/bitmap_mismatches",
+		"at_recovery/stale_addresses", "at_recovery/bitmap_mismatches",
 		"retry_cache_hits_after_recovery", "retry_reresolutions_of_keys_removed_in_window",
 		"op_in_window/"+c10fAllFail+"/remove", "op_in_window/"+c10fAllFail+"/query", "op_in_window/"+c10fAllFail+"/store", "op_in_window/"+c10fAllFail+"/janitor", "op_in_window/"+c10fTableFull+"/store", "op_in_window/"+c10fTableFull+"/query", "fault_windows/"+c10fTableFullAny,
 		"checks/after-retry-round", "checks/ordinary-op-after-a-healed-window", "checks/ordinary-op-before-any-window", "nontrivial_histories", "table_addresses_equal_to_cache")
+	// A judged table-full window holds ONE insertion. Whether it can leave the table different from the
+	// cache, and whether addresses can be MISSING when the writes recover, depends on a choice the
+	// statement leaves open: an insertion whose route write fails may publish its entry all the same (the
+	// table then lacks it until dae's retry) or refuse to publish it (cache and table both unchanged:
+	// nothing to heal). The difference/healing observations are demanded only where the tree under test
+	// produced the situation in which they can occur; otherwise the refusal itself must have been seen.
+	if m.Counter("insertion_with_failed_route_write/entry_published_all_the_same/"+c10fTableFull) > 0 {
+		m.Require("windows_after_which_table_differed_from_cache/"+c10fTableFull, "windows_healed_by_dae_retry_paths/"+c10fTableFull)
+	} else {
+		m.Require("insertion_with_failed_route_write/entry_not_published/" + c10fTableFull)
+	}
+	if m.Counter("insertion_with_failed_route_write/entry_published_all_the_same/"+c10fTableFull)+
+		m.Counter("insertion_with_failed_route_write/entry_published_all_the_same/"+c10fAllFail) > 0 {
+		m.Require("at_recovery/missing_addresses")
+	} else {
+		m.Require("insertion_with_failed_route_write/entry_not_published/" + c10fAllFail)
+	}
 	m.Done(t)
 }
